@@ -416,7 +416,8 @@ static Plan make_plan(const std::string& prop, uint64_t root, uint64_t idx, bool
         IoFault f; f.call = r.below(3) ? "fopen" : "fclose"; f.nth = 1 + (int)r.below(6); static const int errs[] = {ENOSPC, EMFILE, EIO, EACCES}; f.err = errs[r.below(4)];
         p.faults.push_back(f);
     }
-    if (prop == "C09" && r.below(12) == 0) p.tcfail = 0.2;
+    if (prop == "C10" && !g_sweep && p.trunc < 0 && p.faults.empty() && r.below(6) == 0) p.tcfail = r.below(2) ? 0.2 : 0.7;   // worker threads that cannot be created: failing is fine, hanging or crashing is not
+    if (prop == "C09" && r.below(12) == 0) p.tcfail = r.below(2) ? 0.2 : 0.7;
     else if (prop == "C09" && r.below(8) == 0) {
         // an output (or input) file that cannot be opened / closed: the run may fail, but it must not report success with an incomplete output set
         IoFault f; f.call = r.below(4) ? "fopen" : "fclose"; f.nth = 1 + (int)r.below(12); static const int errs[] = {ENOSPC, EMFILE, EIO, EACCES}; f.err = errs[r.below(4)];
